@@ -513,7 +513,9 @@ def rules(tier):
             # mutation sweep: random walk positions seeded at index 1
             ('C16.R16', _shared_rule('plumbing', 'generator_glue')),
             # mutation sweep: len(pt) != 1 in the honeyword emitter
-            ('C16.R17', _shared_rule('c16', 'r17_honeyword_recursion_shape'))]
+            ('C16.R17', _shared_rule('c16', 'r17_honeyword_recursion_shape')),
+            # C16-eb: K* / X* terminals lower-cased after loading under --all_lower
+            ('C16.R18', _shared_rule('plumbing', 'terminals_stored_as_read'))]
 
 
 META = {
